@@ -61,6 +61,7 @@ type FuncContract struct {
 	Returns     []*Clause // obligations at every return site, over the source variables in scope there
 	Modifies    []*CExpr
 	ModSrc      []string
+	Escapes     bool // `escapes`: besides the listed frame, the callee may write through its pointer arguments (the default for external callees without a contract)
 	Invs        []*Clause
 	Decr        []*Clause
 	CallReqs    []*Clause
@@ -378,6 +379,12 @@ func (c *Contracts) LoadFile(path string) error {
 				cl.InScope = word == "returns?"
 				cur.Returns = append(cur.Returns, cl)
 			}
+		case "escapes":
+			if cur == nil {
+				c.errf(path, ln, "escapes outside a function contract")
+				continue
+			}
+			cur.Escapes = true
 		case "modifies":
 			if cur == nil {
 				c.errf(path, ln, "modifies outside a function contract")
